@@ -158,6 +158,9 @@ func (m *MTProto) CreateConnection() error {
 	if !m.encrypted {
 		err = m.makeAuthKey()
 		if err != nil {
+			// the exchange is abandoned: nothing of this connection may go on working behind the caller's back
+			// (left alone, the reading routine would reconnect when the server hangs up and run a new exchange)
+			m.stopRoutines()
 			return errors.Wrap(err, "making auth key")
 		}
 	}
@@ -289,6 +292,10 @@ func (m *MTProto) startReadingResponses(ctx context.Context) {
 				case context.Canceled:
 					return
 				case io.EOF:
+					// only a client that holds a key has something to come back with
+					if !m.keyAfterHangup(ctx) {
+						return
+					}
 					err = m.Reconnect()
 					if err != nil {
 						m.warnError(errors.Wrap(err, "can't reconnect"))
@@ -300,6 +307,23 @@ func (m *MTProto) startReadingResponses(ctx context.Context) {
 			}
 		}
 	}()
+}
+
+// keyAfterHangup is asked by the reading routine when the server has closed the connection: does the client
+// hold an auth key to connect again with? While the key is still being negotiated it does not: the step of the
+// exchange that waits for an answer is told that none will come, and the routine ends - a new key exchange is
+// never started behind the caller's back (after an exchange that was given up the routines are stopped anyway).
+func (m *MTProto) keyAfterHangup(ctx context.Context) bool {
+	for !m.encrypted {
+		select {
+		case <-ctx.Done():
+			return false
+		case m.serviceChannel <- &errorUndecodableResponse{err: io.ErrUnexpectedEOF}:
+			return false
+		case <-time.After(50 * time.Millisecond): //nolint:gomnd // the exchange may have succeeded meanwhile
+		}
+	}
+	return true
 }
 
 func (m *MTProto) readMsg() error {
